@@ -28,6 +28,7 @@ static Json op_json(const Op &op) {
     if (anya) { Json a = Json::arr(); for (auto x : op.a) a.push(x); j.set("a", a); }
     if (!op.dims.empty()) j.set("dims", Json::from(op.dims));
     if (op.kind == OP_PUT_ATT || op.kind == OP_BIGCASE) { j.set("att_type", op.att.type).set("att_v", Json::from(op.att.v)); }
+    if (op.alt_rank >= 0) j.set("alt_rank", op.alt_rank).set("alt_name", op.alt_name).set("alt_val", op.alt_val);
     if (!op.coll) j.set("coll", false);
     if (!op.acc.empty()) { Json a = Json::arr(); for (auto &x : op.acc) a.push(acc_json(x)); j.set("acc", a); }
     if (!op.waits.empty()) { Json a = Json::arr(); for (auto &w : op.waits) { Json o = Json::obj(); o.set("active", w.active).set("mode", w.mode).set("slots", Json::from(w.slots)); a.push(o); } j.set("waits", a); }
@@ -42,6 +43,7 @@ static Op op_from(const Json &j) {
     auto a = j.at("a").ints(); for (size_t i = 0; i < a.size() && i < 6; i++) op.a[i] = a[i];
     op.dims = j.at("dims").ints(); op.att.type = (int)j.at("att_type").num(NC_INT); op.att.v = j.at("att_v").ints();
     op.coll = j.has("coll") ? (bool)j.at("coll").num() : true;
+    op.alt_rank = (int)j.at("alt_rank").num(-1); op.alt_name = j.at("alt_name").str(); op.alt_val = j.at("alt_val").num();
     for (auto &x : j.at("acc").a) op.acc.push_back(acc_from(x));
     for (auto &x : j.at("waits").a) { WaitSpec w; w.active = x.at("active").num(1); w.mode = (int)x.at("mode").num(); for (auto s : x.at("slots").ints()) w.slots.push_back((int)s); op.waits.push_back(w); }
     for (auto &kv : j.at("hints").o) op.hints[kv.first] = kv.second.str();
@@ -89,6 +91,7 @@ Program program_from_json(const Json &j) {
 static std::string vec_s(const std::vector<long long> &v) { std::string s = "["; for (size_t i = 0; i < v.size(); i++) { if (i) s += ","; s += std::to_string(v[i]); } return s + "]"; }
 std::string op_to_string(const Op &op, int rank) {
     std::string s = std::string(op_kind_name[op.kind]) + "(f" + std::to_string(op.file);
+    if (op.alt_rank >= 0 && op.note == "multidefine") s += ",DISAGREE@r" + std::to_string(op.alt_rank) + (op.alt_name.empty() ? ":" + std::to_string(op.alt_val) : ":'" + op.alt_name + "'");
     switch (op.kind) {
     case OP_CREATE: s += ",'" + op.name + "',CDF-" + std::to_string(op.a[0]); break;
     case OP_OPEN: s += ",'" + op.name + "'," + (op.a[0] ? "rw" : "ro"); break;
